@@ -217,6 +217,47 @@ def mk_case(events, tick=1, lat=1, seed=1, random_order=False, twin=True, flavou
             "events": events, "twin": twin, "fam": "crash", "flavour": flavour}
 
 
+def bg_panic_points():
+    """A background task (spawn_local) of host n2 or n3 panics in its first, second or third incarnation: Sim::step
+    must surface that panic whatever the incarnation (turmoil builds every host LocalSet with
+    unhandled_panic(ShutdownRuntime); seed C04-A8: the replacement LocalSet of a crashed / bounced host lost it)."""
+    out = []
+    for h in (2, 3):
+        for inc in (0, 1, 2):
+            for how in ("bounce", "crash-bounce"):
+                for gap in (0, 2):
+                    ev = [["step"]] * 4
+                    for _ in range(inc):
+                        if how == "bounce":
+                            ev += [["bounce", {"h": h}]]
+                        else:
+                            ev += [["crash", {"h": h}]] + [["step"]] * gap + [["bounce", {"h": h}]]
+                        ev += [["step"]] * 2
+                    ev += [["step"]] * 8 + [["probe"]]
+                    c = mk_case(ev, 1, 1, 7 + inc, False, twin=False, flavour="bg-panic")
+                    c["cfg"]["bg_panic"] = [h, inc, 3]
+                    out.append(c)
+    return out
+
+
+def bg_panic_oracle(case, obs):
+    out = []
+    if not case["cfg"].get("bg_panic"):
+        return out
+    h, inc, ticks = case["cfg"]["bg_panic"]
+    evs = obs["evs"]
+    hit = [x for x in obs["log"] if x[2] == "bgp" and x[3] == "panic"]
+    for x in hit:
+        k = x[6]
+        r = evs[k].get("r") if 0 <= k < len(evs) else None
+        if not (isinstance(r, str) and r.startswith("panic:")):
+            out.append(("event %d (step): a background task (spawn_local) of host n%d, incarnation %d, panicked during this step but "
+                        "Sim::step returned %s - the panic was swallowed and the half-dead host keeps running (a first incarnation "
+                        "surfaces such a panic from Sim::step: the restarted host does not run on an equivalent fresh runtime)"
+                        % (k, x[0], x[1], r), None))
+    return out
+
+
 def crash_points(tick, lat, who, total=22, bounce_after=(None, 0, 1, 4), seed=1, mc=(), flavour="crash-points"):
     """Crash `who` after i steps for every i, optionally bounce after j more steps."""
     out = []
